@@ -29,10 +29,23 @@ const (
 )
 
 func (e *fnEnc) canInline(callee *ssa.Function, key string) bool {
-	if callee == nil || len(callee.Blocks) == 0 || len(callee.Blocks) > inlMaxBlocks || len(callee.FreeVars) > 0 || callee.Recover != nil {
+	if e.inlDepth >= inlMaxDepth || e.inRecover {
 		return false
 	}
-	if e.inlDepth >= inlMaxDepth || e.inRecover {
+	if !e.V.inlinableShape(callee, key) {
+		return false
+	}
+	if e.V.reach(key, e.key) {
+		return false // calls back into the function being encoded
+	}
+	return true
+}
+
+// inlinableShape: the structural part of the inlining test (independent of
+// the call site). A function of this shape that is only ever called directly
+// is verified in the context of each of its call sites, never on its own.
+func (V *Verifier) inlinableShape(callee *ssa.Function, key string) bool {
+	if callee == nil || len(callee.Blocks) == 0 || len(callee.Blocks) > inlMaxBlocks || len(callee.FreeVars) > 0 || callee.Recover != nil {
 		return false
 	}
 	if callee.Signature.Variadic() {
@@ -56,8 +69,8 @@ func (e *fnEnc) canInline(callee *ssa.Function, key string) bool {
 	if n > inlMaxInstrs {
 		return false
 	}
-	if e.V.reach(key, key) || e.V.reach(key, e.key) {
-		return false // recursive, or calls back into the function being encoded
+	if V.reach(key, key) {
+		return false // recursive
 	}
 	return true
 }
